@@ -60,6 +60,42 @@ def run(ctx, b, broken):
             ctx.traces += 1
             if mo != io:
                 disagreements.append((suite, text, io, mo))
+    # a lexer that was used before (previous input abandoned after 0..3 tokens, e.g. between the two tokens of a #pragma line)
+    # must tokenise the next input exactly like a new one
+    from pycparser.c_lexer import CLexer
+    poison = ["#pragma a b\nint x", "#pragma once", "# 5 \"q.c\"\nfoo bar", "a\n\nb 'x", "int x;\n#pragma pack(1)\nint y;", "#line 9\n#pragma omp for\nz"]
+    tok_cases = [c for c in cases if c[0] == "tokens"][: (300 if ctx.tier == "quick" else 3000)]
+    for suite, text, exp in tok_cases:
+        items = []
+        lx = CLexer(error_func=lambda msg, line, col: items.append(("E", msg, str(line), str(col), lx.filename)),
+                    on_lbrace_func=lambda: None, on_rbrace_func=lambda: None, type_lookup_func=lambda name: False)
+        lx.input(ctx.rng.choice(poison), "old.c")
+        try:
+            for _ in range(ctx.rng.randint(0, 3)):
+                if lx.token() is None:
+                    break
+        except Exception:
+            pass
+        del items[:]
+        lx.input(text, "f.c")
+        got = []
+        try:
+            for _ in range(4 * len(text) + 16):
+                t = lx.token()
+                if t is None:
+                    break
+                items.append(("T", t.type, t.value, str(t.lineno), str(t.column), lx.filename))
+        except Exception as e:
+            items.append(("X", type(e).__name__))
+        items.append(("F", lx.filename))
+        reused = canon_items(items)
+        ctx.evaluations += 1
+        ctx.count("suite:reused-lexer")
+        fresh = impl_lex(text, "f.c")
+        if reused != fresh:
+            ctx.violation({"property": "C09", "suite": "reused-lexer", "input": text, "filename": "f.c", "observed": reused[:400], "expected": fresh[:400],
+                           "problem": "a CLexer that was used before tokenises the next input differently from a new one"})
+            break
     if model:
         model.close()
     ctx.sample({"suite": "exhaustive", "text": "a0'\\", "note": "all strings over the 20-character alphabet up to the tier's length"})
